@@ -4,7 +4,12 @@ import common, zoo as zoolib, filelevel, workloads
 from common import Pair, proof_stage, rebuild_tools, build_pqh, build_zoo, Lock, TRUSTED_BASE
 
 MODULE = "PQ.Props.C13"
-THEOREMS = []
+THEOREMS = ["PQ.C13." + t for t in (
+    "interleaving_indep", "interleaving_indep_turns", "interleaving_indep_complete", "all_outputs_complete", "exists_complete_schedule",
+    "wellBracketed_take", "no_conflicting_access", "output_indep_pool", "output_indep_pool_prefix", "put_before_emit_breaks",
+    "encodeInto_indep", "pageProgram_wellBracketed", "pageProgram_seqOut", "pageProgram_indep", "pageProgramUncompressed_wellBracketed",
+    "pageProgramUncompressed_seqOut", "errorPath_wellBracketed_seqOut", "pool_sites_paired", "pool_sites_nonempty", "pool_sites_at_most_two",
+    "pool_sites_are_writers", "global_vars_inventory")]
 
 
 def run(chk):
